@@ -24,7 +24,7 @@ VERUS_UNITS = {
                     props=['C01', 'C06']),
     'U-JSN-V': dict(module='contracts.verus.json_transcode', min_verified=1, timeout=600,
                     props=['C03', 'C04']),
-    'U-MAIN-V': dict(module='contracts.verus.cli_main', min_verified=7, timeout=600,
+    'U-MAIN-V': dict(module='contracts.verus.cli_main', min_verified=11, timeout=600,
                      props=['C14', 'C03', 'C15', 'C13']),
     'U-CAP-V': dict(module='contracts.verus.input_capture', min_verified=18, timeout=600,
                     native_search=dict(src='src/input.rs', file='capture_search.rs'),
@@ -433,18 +433,19 @@ PROPERTIES = {
         explanation='Extension table: extension_format == table(ascii_lowercase(ext)) for every extension byte string of length 0..=7 that Path::extension may return; Stdin => None; '
                     'format names table of try_parse_format (Kani, U-EXT, strings <= 3 B; Verus U-MAIN-V, every string). Precedence and stdin-once: Verus (U-MAIN-V) proves on the verbatim main() that the i-th translate call receives '
                     'from == (-f if given, else extension_format(path_i), else None = detection), resolved afresh for every input, one call per path in iterator order, and that at most one '
-                    'of the translated inputs is standard input (a second `-` is refused before anything is read).',
+                    'of the translated inputs is standard input (a second `-` is refused before anything is read). Cli::parse_args (verbatim, same unit): the -f value reaches Cli.from exactly when it is a name of the table, for every command line.',
         assumptions=['std::path::Path::extension returns the last extension (stubbed by its std contract)',
                      'stand-ins of U-MAIN-V: Cli::parse_args, InputPath::open (Stdin path <=> Input::Stdin), the InputPaths iterator (lawful), xt::Translator (ghost call log), stdio, process::exit'],
-        not_covered=['mmap / FIFO / stdin agreement with the library (InputPath::open, File / Mmap readers)', 'Cli::parse_args (lexopt)', 'InputPath::from and Iterator for InputPaths (two-line bodies; unverified)']),
+        not_covered=['mmap / FIFO / stdin agreement with the library (InputPath::open, File / Mmap readers)', 'lexopt\'s own splitting rules', 'InputPath::from and Iterator for InputPaths (two-line bodies; unverified)']),
     'C13': dict(
-        explanation='Three clauses of C13 are decided by the Verus contract on the verbatim main() (U-MAIN-V): (1) the translator is never created when stdout is a terminal and the target is MessagePack '
-                    '(precondition-contract on Translator::new against is_terminal / format_is_unsafe_for_terminal); (2) main() returns normally (status 0) only after every path the iterator produced '
-                    'was translated with result Ok and flushed (loop invariant at loop exit); every failure leaves through process::exit; (3) main() itself exits only with status 1 or 2.',
-        assumptions=['process::exit(code) terminates with that status; help / version handling and the usage-error classification live in Cli::parse_args (lexopt; stand-in)',
-                     'stand-ins of U-MAIN-V (see C14)'],
-        not_covered=['which command lines are invalid (Cli::parse_args)', 'that status 2 is used exactly for invalid command lines and 1 for the rest (both constants appear in the verified text but no contract ties them to the cause)',
-                     'message texts on stderr, nothing on stdout for usage errors', 'pseudo-terminal detection itself (std)']),
+        explanation='Decided by Verus contracts on the verbatim Cli::parse_args and main() (U-MAIN-V): (1) parse_args returns Err EXACTLY for the command lines that the token-stream model calls invalid '
+                    '(-f / -t repeated, without a value or with a name outside the table; an unknown option; a token lexopt rejects) and, for a valid one, a Cli holding the -f value, the -t value (JSON when absent) and one path per '
+                    'non-option token, in order -- for every command line of any length; main() turns Err into the usage path that ends in process::exit; (2) the translator is never created when stdout is a terminal and the target is MessagePack; '
+                    '(3) main() returns normally (status 0) only after every path was translated with result Ok and flushed; every failure leaves through process::exit; (4) the only statuses passed to process::exit are 0 (help / version), 1 and 2.',
+        assumptions=['lexopt splits the command line into the token stream the model describes (stand-in: next() / value() pop one token; attached values count as two tokens)',
+                     'process::exit(code) terminates with that status', 'stand-ins of U-MAIN-V (see C14)'],
+        not_covered=['that status 2 is passed exactly in the usage-error arm and 1 elsewhere (both constants appear in the verified text but no contract ties them to the cause)',
+                     'message texts on stderr, nothing on stdout for usage errors, the help texts', 'pseudo-terminal detection itself (std)', 'lexopt\'s own splitting rules (--opt=value, combined short options, `--`)']),
     'C15': dict(
         explanation='Verus (U-MAIN-V) proves on the verbatim main() the invariant "nothing is pending in the translator at a loop head": every finished input has been flushed with result Ok before the next input '
                     'is opened, so an error exit (process::exit runs no destructors) happens only while the CURRENT input is in progress and cannot lose output of a finished one; at normal return nothing is unflushed. '
